@@ -4,6 +4,7 @@ parts to run per tier, case counts, sharding, and the evidence texts."""
 CHECKS = {}
 
 CHECKS["C12"] = dict(
+    technique='exhaustive enumeration of finite sub-spaces (all keys of length <= 3, all brace placements of length <= 9) + property-based testing (rapid) against an independent bit-serial CRC16 / HASH_SLOT reference',
     pkg="c12", level="exploration", exhaustive_claim=True,
     rule=("part crc3: exhaustive enumeration of all byte strings of length 0..3 (2^24+2^16+2^8+1 keys; the first two bytes "
           "drive the CRC register through all 2^16 states, the third covers every next byte in every state); part braces: "
@@ -37,6 +38,7 @@ NOTES = ("All checks are property-based tests / fuzzing (pgregory.net/rapid v1.3
 NOT_CLAIMED = {}
 
 CHECKS["C10"] = dict(
+    technique='property-based testing (rapid) against an independent reference codec (round trip, differential, prefix) + exhaustive enumeration of small integer strings + native coverage-guided fuzzing (go test -fuzz, thorough tier)',
     pkg="c10", level="exploration",
     rule=("rapid-generated sequences of 1..30 recursive RESP values (simple/error strings of any bytes but LF, int64 biased to the "
           "encoder-table edges and the 64-bit limits, bulk strings null/empty/up to 70000 bytes around 511/512/8191/8192, arrays "
@@ -63,6 +65,7 @@ CHECKS["C10"] = dict(
 )
 
 CHECKS["C19"] = dict(
+    technique='stateful property-based testing (rapid) against a model map + exhaustive small-scope enumeration of counter histories + end-to-end HOTKEY report checks',
     pkg="c19", level="exploration",
     rule=("part counter: rapid-generated histories (1..120 steps) of Incr(key from a skewed pool of 1..2*capacity+3 names)/Latch/Free on a "
           "real hotkey.Counter of capacity 1..255, checked after every step against a model map (admitted at 1, +1 per access, reset on "
@@ -89,6 +92,7 @@ CHECKS["C19"] = dict(
 )
 
 CHECKS["C15"] = dict(
+    technique='stateful property-based testing (rapid) against a sequential model + exhaustive small-scope enumeration of operation histories + concurrent invariants',
     pkg="c15", level="exploration",
     rule=("part set: rapid-generated histories (1..40 steps over 6 addresses x {main,backup}) of Add (fresh objects, also of a member "
           "address with the other type), Remove (stored object, or a fresh object with the same or the other type as the controller "
@@ -117,6 +121,7 @@ CHECKS["C15"] = dict(
 )
 
 CHECKS["C13"] = dict(
+    technique='property-based testing (rapid): round trip and stored-form relation decoded by the snappy library directly; stateful end-to-end histories against a reference keyspace',
     pkg="c13", level="exploration",
     rule=("part unit: rapid-generated write requests of the supported commands (SET [EX|NX|PX..], GETSET, SETNX, SETEX, PSETEX, HSET, "
           "HSETNX, HMSET with 1..4 pairs; any letter case) with values of five entropy classes (constant, short period, text-like, "
@@ -149,6 +154,7 @@ CHECKS["C13"] = dict(
 )
 
 CHECKS["C17"] = dict(
+    technique='property-based testing (rapid) of frames (round trip, hostile lengths) and request sequences; real-binary parts (scripted child, real parent/child hand-over) + native fuzzing of the frame reader (thorough tier)',
     pkg="c17", level="exploration",
     rule=("part frames: rapid-generated frames over a unix stream socketpair: well-formed (type 0..255, payload 0..4093 bytes) sent with the real "
           "sendMessage and read with the real readMessage must round-trip exactly; hostile raw frames (one write of 1..4096 bytes, declared "
@@ -190,6 +196,7 @@ CHECKS["C17"] = dict(
 )
 
 CHECKS["C08"] = dict(
+    technique='stateful property-based testing (rapid): generated update histories and controller pacing against a fold model; end-to-end part over real gRPC streams',
     pkg="c08", level="exploration",
     rule=("rapid-generated histories (0..2 static bootstrap services, then 1..40 steps over services {a,b,c} and a never-added 'd') of "
           "dependency updates (added/removed lists, also both), service-config updates (an invalid first config, six valid variants), "
@@ -215,6 +222,7 @@ CHECKS["C08"] = dict(
 )
 
 CHECKS["C16"] = dict(
+    technique='stateful property-based testing (rapid) with injected stream failures against a fold of the requests per stream; end-to-end part over real gRPC streams',
     pkg="c16", level="exploration",
     rule=("rapid-generated histories (1..25 steps) against the real svcDiscoveryClient over a scripted stream factory: Subscribe/Unsubscribe "
           "of 1..4 names out of 24, bursts of 10..60 calls (more than the two 16-entry queues), stream creation failing 1..3 times, server "
@@ -237,6 +245,7 @@ CHECKS["C16"] = dict(
 )
 
 CHECKS["C03"] = dict(
+    technique='property-based testing (rapid): generated command programs against a reference keyspace executor (differential oracle) plus routing oracle from an independent CRC16/hash-tag implementation',
     pkg="c03", level="exploration",
     engine="sim: simulated Redis Cluster + reference keyspace executor; real proxy through proc.New",
     rule=("rapid-generated cases: a slot layout (1..6 masters, 0..2 replicas each; contiguous, striped, every-slot-random or random-range "
@@ -261,6 +270,7 @@ CHECKS["C03"] = dict(
 )
 
 CHECKS["C01"] = dict(
+    technique='property-based testing (rapid): generated pipelines, fragmentations and reply schedules against a reference keyspace executor (differential oracle) on a simulated cluster',
     pkg="c01", level="exploration",
     engine="sim: simulated Redis Cluster + reference keyspace executor; real proxy through proc.New",
     rule=("rapid-generated cases: layout (1..5 masters; even/striped/random/range tables), 1..4 concurrent client connections with "
@@ -288,6 +298,7 @@ CHECKS["C01"] = dict(
 )
 
 CHECKS["C07"] = dict(
+    technique='stateful property-based testing (rapid) with injected faults (connection loss, restarts, black-holed connects, re-layouts) against a recovery model',
     pkg="c07", level="fault_enumeration",
     engine="sim: simulated Redis Cluster with fault injection; real proxy through proc.New",
     rule=("rapid-generated fault histories (1..8 steps + final recovery) over a simulated cluster of 2..4 masters (0..1 replica each), optionally "
@@ -310,6 +321,7 @@ CHECKS["C07"] = dict(
 )
 
 CHECKS["C02"] = dict(
+    technique='property-based testing (rapid) with generated schedules over named pause points and injected faults (directed + enumerated grid), plus hook-free stress/chaos generation; oracle: exactly one reply per request, hang confirmed by goroutine dumps',
     pkg="c02", level="fault_enumeration",
     engine="sim + verifpoint pause points: the harness owns the schedule at named points of the backend client and the session",
     rule=("part directed: rapid-generated cases: 1..3 masters, 1..3 client connections each pipelining 1..30 requests (GET/SET and MGET/MSET "
@@ -344,6 +356,7 @@ CHECKS["C02"] = dict(
 )
 
 CHECKS["C04"] = dict(
+    technique='stateful property-based testing (rapid): generated migration / fail-over histories against a reference model; directed scenarios for the known finding',
     pkg="c04", level="exploration",
     engine="sim: simulated Redis Cluster with per-key migration state; real proxy through proc.New",
     rule=("part migration: rapid-generated histories (3..40 steps) over a simulated cluster of 2..4 masters (0..1 replica each; every node is "
@@ -368,6 +381,7 @@ CHECKS["C04"] = dict(
 )
 
 CHECKS["C14"] = dict(
+    technique="enumeration of the full Redis 5.0 command table x letter cases x strategies + property-based testing (rapid) with topology changes; oracle from the simulated nodes' logs",
     pkg="c14", level="exploration",
     engine="sim: simulated Redis Cluster with replicas; real proxy through proc.New",
     rule=("part names: enumeration of every name of the Redis 5.0 command table (transcribed with Redis's own write/readonly flags), of the "
@@ -391,6 +405,7 @@ CHECKS["C14"] = dict(
 )
 
 CHECKS["C18"] = dict(
+    technique='property-based testing (rapid): cursor round trip; generated multi-node iterations with scripted cursor chains, oracle from node logs and key sets',
     pkg="c18", level="exploration",
     engine="verif hooks over the cursor code + sim with scripted per-node SCAN cursor chains",
     rule=("part cursor: rapid-generated (node index 0..65535, node cursor < 2^48 biased to edges 0, 1, 2^32, 2^47, 2^48-1, next cursor, "
@@ -414,6 +429,7 @@ CHECKS["C18"] = dict(
 )
 
 CHECKS["C11"] = dict(
+    technique='property-based testing (rapid) with generated and mutated hostile inputs at parser and socket level (robustness oracle: alive, still serving, bounded allocation) + native coverage-guided fuzzing (thorough tier)',
     pkg="c11", level="exploration",
     engine="verif hooks over the parsers/handlers (layer 1) + sim with a hostile node and hostile clients (layer 2); SUT in a child process the driver can afford to lose",
     rule=("layer 1 (hooks, recover around each call, debug.SetMaxStack(64 MiB) so unbounded recursion is a cheap observable crash): part decoder: "
@@ -458,6 +474,7 @@ CHECKS["C11"] = dict(
 )
 
 CHECKS["C05"] = dict(
+    technique='property-based testing (rapid): generated byte streams, chunkings, pacing and close scripts; oracle: position-dependent patterns received exactly',
     pkg="c05", level="exploration",
     engine="tcpsim: real TCP processor through proc.New, scripted clients and backends over loopback",
     rule=("rapid-generated cases: 1..16 concurrent connections through ONE proxy (shared 16 KiB buffer pool), each with a client->backend and a "
@@ -476,6 +493,7 @@ CHECKS["C05"] = dict(
 )
 
 CHECKS["C06"] = dict(
+    technique='property-based testing (rapid): policy-level laws (exact round robin, scripted random values) and stateful end-to-end histories with a membership / health model',
     pkg="c06", level="exploration",
     engine="verif re-export of the balancers (policy level) + tcpsim: real TCP processor with the real TCP health checker and scripted backends",
     rule=("part roundrobin: n in 1..16 hosts, k in 1..50, g in 1..16 goroutines performing n*k consecutive picks in total after 0..40 warm-up picks: "
@@ -500,6 +518,7 @@ CHECKS["C06"] = dict(
 )
 
 CHECKS["C09"] = dict(
+    technique='property-based testing (rapid) with generated lifecycle scripts placed at named pause points and injected backend behaviours; oracles: bounded-time return, closed connections, goroutine baseline',
     pkg="c09", level="fault_enumeration",
     engine="sim / tcpsim + verifpoint pause points in listener.Serve: the harness places Stop/Drain at named points of the bind loop",
     rule=("part stop: rapid-generated cases: service kind {TCP, Redis}; port free or held by a plain listener during the first bind retry; backend "
@@ -532,6 +551,7 @@ CHECKS["C09"] = dict(
 )
 
 CHECKS["C20"] = dict(
+    technique='stateful property-based testing (rapid): generated traffic / fault histories ending in quiescence; conservation invariants over the public statistics',
     pkg="c20", level="exploration",
     engine="sim / tcpsim; the statistics are read through the public stats package by name",
     rule=("rapid-generated histories (2..20 steps) against a real Redis processor in front of 1..3 simulated masters, or a real TCP processor in "
